@@ -194,7 +194,48 @@ def c13_coap_cases(draw):
     return {"ids": ids, "outcomes": [draw(st.sampled_from(["ok", "ok", "ok"] + OUTCOMES)) for _ in ids], "mode": mode, "sel": draw(st.integers(0, 1000)), "k": draw(st.integers(0, 9))}
 
 
+def run_c13_coap_refused(case, R):
+    """The accessory refuses the whole request without a body (4.04: it restarted and has no session any more): the call fails, or every
+    requested characteristic is reported with an error - never an empty 'all fine' result, never a notification."""
+    ids = case["ids"]
+    mode = case["mode"]
+    R.nt()
+    R.cls(mode + ":coap-refused")
+
+    async def main(loop):
+        w = CoapWorld(loop, k=case.get("k", 0))
+        try:
+            p = w.pairing
+            logs = attach_listeners(p)
+            await p.list_accessories_and_characteristics()
+            for l_ in logs:
+                l_.clear()
+            if case.get("warm"):
+                await p.get_characteristics([(1, 10)])
+            w.acc.sess = None
+            what = f"CoAP {mode} {ids} answered 4.04 without a body"
+            try:
+                if mode == "write":
+                    res = await p.put_characteristics([(1, iid, value_for(iid, i)) for i, iid in enumerate(ids)])
+                else:
+                    res = await p.get_characteristics([(1, iid) for iid in ids])
+            except Exception:  # noqa: BLE001
+                R.cls("coap-refused:call-fails")
+                return
+            await vtime.settle(loop)
+            told = sorted(k_ for ev in logs[0] for k_ in ev)
+            bad = [iid for iid in ids if not (res or {}).get((1, iid), {}).get("status")]
+            if bad or told:
+                R.fail("C13.rejected-reported-as-written" if mode == "write" else "C13.read-status",
+                       f"{what}: result {res!r:.200}, listeners told about {told}", code="coap-refused")
+        finally:
+            w.restore()
+    vtime.run(main)
+
+
 C13_LAYERS = [
+    Layer("coap-request-refused", run_c13_coap_refused, exhaustive=True, space="write / read x 3 id sets x session lost before / after an earlier request",
+          enumerate=lambda tier: ({"mode": m, "ids": ids, "warm": wm} for m in ("write", "read") for ids in ([10], [10, 12], [12, 11, 10]) for wm in (False, True))),
     Layer("coap-batch-table", run_c13_coap, enumerate=enum_c13_coap, exhaustive=True,
           space="write and read batches of 1..3 items x 10 per-item outcomes (ok, PDU status 1..6, status with a non-empty body, wrong tid, wrong control bits); quick: every 3rd vector for n = 3", min_nontrivial=300),
     Layer("coap-batch-gen", run_c13_coap, strategy=c13_coap_cases, n={"quick": 2000, "thorough": 30000}),
